@@ -238,7 +238,42 @@ def equal_leaves_case(_=None):
   return n, n, viols, [dict(scenario='equal-but-distinct leaf values', cases=n)]
 
 
+def kwargs_order_case(_=None):
+  """Arguments absorbed by **kwargs reach the callable in the order in which the configuration
+  holds them (constructor order, later additions at the end), as `f(**mapping)` would pass them."""
+  from layerb import pool
+  viols = []
+  def mk1():
+    return fdl.Config(pool.fkord, 'files', tokenize=1, pack=2, batch=3)
+  def mk2():
+    c = fdl.Config(pool.fkord, zeta=1)
+    c.alpha = 2
+    c.mid = 3
+    del c.zeta
+    c.zeta = 4
+    return c
+  def mk3():
+    return fdl.Partial(pool.fkord, 0, w=1, b=2, a=3)
+  n = 0
+  for name, mk in (('constructor order', mk1), ('edits after construction', mk2), ('Partial', mk3)):
+    n += 1
+    cfg = mk()
+    stored = {k: v for k, v in cfg.__arguments__.items() if isinstance(k, str) and k != 'x'}
+    want = pool.fkord(cfg.__arguments__.get('x', cfg.__arguments__.get(0, 0)), **stored)
+    got = fdl.build(cfg)
+    got = got() if isinstance(cfg, fdl.Partial) else got
+    if got != want:
+      viols.append(dict(kinds=[], hasdef=[], store=name, cls=type(cfg).__name__, sig='kwargs-order', scenario=name,
+                        what=f'{name}: the callable received its **kwargs as {got[2]}, the configuration holds them '
+                             f'in the order {tuple(stored.items())}'))
+  return n, n, viols, [dict(scenario='order of **kwargs arguments', cases=n)]
+
+
 def replay(case):
+  if case.get('sig') == 'kwargs-order':
+    r = kwargs_order_case()
+    m = [v for v in r[2] if v['scenario'] == case.get('scenario')]
+    return m[0]['what'] if m else None
   if case.get('sig') == 'equal-leaves':
     r = equal_leaves_case()
     m = [v for v in r[2] if v['scenario'] == case.get('scenario')]
